@@ -1,5 +1,5 @@
 (* C11 — cross-origin grants follow the configuration exactly.  Property theorems only. *)
-From Rws Require Import Str Num Fs UrlParse RangeSpec Request GenMime Mime StaticRes GenConsts Server StrLemmas C10Proof C11Proof.
+From Rws Require Import Str Num Unicase Fs UrlParse RangeSpec Request GenMime Mime StaticRes GenConsts Server StrLemmas C10Proof C11Proof.
 Open Scope N_scope.
 
 Theorem C11_no_origin_no_grants : forall c r, get_header r Hd_ORIGIN = None -> cors_headers c r = [].
@@ -27,8 +27,8 @@ Theorem C11_off_grants_exact : forall o cr m h e a r org,
   cors_headers (COff o cr m h e a) r =
     [H Hd_ACCESS_CONTROL_ALLOW_ORIGIN (hvalue org)] ++ (if beqs cr TRUE then [H Hd_ACCESS_CONTROL_ALLOW_CREDENTIALS TRUE] else []) ++
     (if beqs (method r) OPTIONS then
-       [H Hd_ACCESS_CONTROL_ALLOW_METHODS m; H Hd_ACCESS_CONTROL_ALLOW_HEADERS (lower h);
-        H Hd_ACCESS_CONTROL_EXPOSE_HEADERS (lower e); H Hd_ACCESS_CONTROL_MAX_AGE a] else []).
+       [H Hd_ACCESS_CONTROL_ALLOW_METHODS m; H Hd_ACCESS_CONTROL_ALLOW_HEADERS (ulower h);
+        H Hd_ACCESS_CONTROL_EXPOSE_HEADERS (ulower e); H Hd_ACCESS_CONTROL_MAX_AGE a] else []).
 Proof. exact C11_off_preflight. Qed.
 
 (* the grants reach the wire: every response's header list starts with the CORS headers of its request *)
